@@ -208,6 +208,84 @@ func c06Merge(c *Ctx, sx *symx.Ctx) {
 			}
 		})
 	})
+	if A < 0 {
+		// the budget handed in as a parameter: len(terms) >= max -> leave, with
+		// max the same constant at every call site of the helper
+		paramConst := func(v ssa.Value) (int64, bool) {
+			par, ok := v.(*ssa.Parameter)
+			if !ok || par.Parent() != fn {
+				return 0, false
+			}
+			idx := -1
+			for i, q := range fn.Params {
+				if q == par {
+					idx = i
+				}
+			}
+			var val int64
+			n := 0
+			for _, g := range shippedFuncs(c) {
+				bad := false
+				ssau.ForEachInstr(g, true, func(in ssa.Instruction) {
+					call, ok := in.(*ssa.Call)
+					if !ok || call.Common().StaticCallee() != fn || idx < 0 || idx >= len(call.Common().Args) {
+						return
+					}
+					k, isC := ssau.ConstInt(call.Common().Args[idx])
+					if !isC || (n > 0 && k != val) {
+						bad = true
+						return
+					}
+					val = k
+					n++
+				})
+				if bad {
+					return 0, false
+				}
+			}
+			return val, n > 0
+		}
+		ssau.ForEachInstr(fn, false, func(in ssa.Instruction) {
+			call, ok := in.(*ssa.Call)
+			if !ok || ssau.CallName(call) != "builtin.append" {
+				return
+			}
+			if ok2, _ := prefixExt(f, call.Common().Args[0], terms, map[ssa.Value]bool{}); !ok2 {
+				return
+			}
+			for _, iff := range ssau.Ifs(fn) {
+				op, x, y, okc := ssau.CondOf(iff.Cond)
+				if !okc {
+					continue
+				}
+				lc, isLen := x.(*ssa.Call)
+				if !isLen || ssau.CallName(lc) != "builtin.len" {
+					continue
+				}
+				if ok2, _ := prefixExt(f, lc.Common().Args[0], terms, map[ssa.Value]bool{}); !ok2 {
+					continue
+				}
+				k, isK := paramConst(y)
+				if !isK {
+					continue
+				}
+				// the edge on which len(terms) < k holds
+				var okEdge int
+				switch op {
+				case token.LSS:
+					okEdge = 0
+				case token.GEQ:
+					okEdge = 1
+				default:
+					continue
+				}
+				cut := map[[2]int]bool{{iff.Block().Index, okEdge}: true}
+				if !ssau.ReachableAvoidingEdges(fn, call.Block(), cut) && (A < 0 || k < A) {
+					A = k
+				}
+			}
+		})
+	}
 	su := c.P.Func("internal/database", "Database", "SearchUniversal")
 	var K int64 = -1
 	if su != nil {
